@@ -8,7 +8,7 @@ from . import c18_gen as gen
 from .c18_rig import same_value
 from .common import short_tb
 from .c18_rig import tb_sites, exc_name
-from .model_dispatch import PREDICATES, PatternError, well_formed
+from .model_dispatch import PREDICATES, PatternError, well_formed, pattern_key
 
 
 class Stop(Exception):
@@ -161,6 +161,10 @@ class HistoryRunner:
 
     # ------------------------------------------------------------ reporting
     def violation(self, key, **w):
+        res = getattr(self, 'last_res', None)
+        if res is not None and res.clock_step:
+            self.acc.mark_inconclusive('host clock stepped during a delivery')
+            raise Stop(key)
         w.update({'case': self.case, 'udp': self.udp, 'history': self.log[-40:],
                   'responders': [r.describe() for r in self.model.resps.values()][:20]})
         self.acc.violation(key, w)
@@ -260,6 +264,10 @@ class HistoryRunner:
     # ------------------------------------------------------------ the oracle
     def check_delivery(self, d, msgs, res, per_message=True):
         acc, m = self.acc, self.model
+        self.last_res = res
+        if res.send_error:
+            acc.count('udp_send_errors')
+            return
         if res.hangs:
             self.violation('C18/hang/valid/' + res.hangs[0][0], res=res.witness())
         if res.escaped:
@@ -375,12 +383,15 @@ class HistoryRunner:
                 acc.count('verdict_open/template-beyond-message')
                 continue
             if v == 'must' and c == 0:
-                self.violation('C18/missed-invocation/' + self._why_missed(r, removed_now, addr),
+                why = self._why_missed(r, removed_now, addr)
+                self.violation(pattern_key(False, 'trailing-minus-in-brackets')
+                               if why == 'TRAILING-MINUS' else 'C18/missed-invocation/' + why,
                                rid=rid, msg=_j([addr] + args), sender=sender, port=port,
                                invoked=[e[1] for e in invs])
             if v == 'not' and c == 1:
-                self.violation('C18/unexpected-invocation/'
-                               + m.why_not(r, addr, args, sender, port),
+                why = m.why_not(r, addr, args, sender, port)
+                self.violation(pattern_key(True, why[8:]) if why.startswith('pattern/')
+                               else 'C18/unexpected-invocation/' + why,
                                rid=rid, msg=_j([addr] + args), sender=sender, port=port)
         for rid in counts:
             if rid not in exp and rid not in touched:
@@ -405,7 +416,7 @@ class HistoryRunner:
                     self.violation('C18/wrong-args/sender-or-port', got=[a, p],
                                    expected=[sender, port])
         # order within one path of one dispatcher
-        seq = [e[1] for e in invs if e[1] in m.resps]
+        seq = [e[1] for e in invs if e[1] in m.resps and e[1] not in touched]
         for i in range(len(seq)):
             for j in range(i + 1, len(seq)):
                 if seq[i] != seq[j] and m.order_constrained(seq[j], seq[i]):
@@ -436,7 +447,7 @@ class HistoryRunner:
         if r.permanent and r.cmdp_since_enable:
             return 'permanent-freed-by-cmdperiod'
         if r.kind == 'match' and addr is not None and '-]' in addr:
-            return 'pattern/rejects-matching/trailing-minus-in-brackets'
+            return 'TRAILING-MINUS'
         filt = ''.join(x for x, on in (('+src', r.src), ('+port', r.recv_port),
                                        ('+tmpl', r.template is not None)) if on)
         return f'other/{r.kind}{filt}'
